@@ -10,7 +10,7 @@
      CInv                      the invariant every reachable state satisfies (C06_reachable) *)
 From AV Require Import Base.Util Model.Framing Model.BrokerClient Model.BrokerClientHook
   Proofs.FramingFacts Proofs.FramingExtra Proofs.FramingBootstrap Proofs.BrokerClientTbl Proofs.BrokerClientInv
-  Proofs.BrokerClientC06 Proofs.BrokerClientChunk Proofs.BrokerClientHook.
+  Proofs.BrokerClientC06 Proofs.BrokerClientChunk Proofs.BrokerClientHook Proofs.BrokerClientGaps.
 
 (* ------------------------------------------------------------------ framing *)
 
@@ -181,6 +181,47 @@ Theorem C06_success_from_received_frame : forall s chunk h fr, CInv s ->
                /\ corr_id fr = Some (r_id r).
 Proof. exact success_from_received_frame. Qed.
 Print Assumptions C06_success_from_received_frame.
+
+(* The length limit at the level of the client: a call of dataReceived that meets a length prefix above 2^31-1 asks
+   the transport to close (OLose is the last output of the step), keeps the connection object until the loss is
+   reported, and - Twisted's behaviour, C06_length_limit_strict_refuted - keeps the received bytes in the buffer. *)
+Theorem C06_limit_closes : forall s c fs len, s_proto s = true -> data_received ok4 (s_rxbuf s) c = (fs, RxLimit len) ->
+  exists o, snd (step s (EData c)) = o ++ [OLose]
+            /\ s_rxbuf (fst (step s (EData c))) = s_rxbuf s ++ c
+            /\ s_proto (fst (step s (EData c))) = true.
+Proof. exact limit_closes. Qed.
+Print Assumptions C06_limit_closes.
+
+(* "... or with a failure (cancelled, or the connection owner was closed)": every outcome has exactly one kind of cause.
+   CancelledError only by the cancel() of that very Deferred; ClientError only by close() or by makeRequest on a closed
+   client; None only for a no-reply request at its write; a frame only by received data. *)
+Theorem C06_outcome_cause : forall s e h oc, In (ODef h oc) (snd (step s e)) ->
+  match oc with
+  | FailCancelled => e = ECancel h
+  | FailClosed => e = EClose \/ exists rid ex, e = EMake rid ex /\ s_down s <> DNone
+  | SuccNone => e = EConnOk \/ exists rid, e = EMake rid false
+  | Succ f => exists c, e = EData c \/ e = EFrame c
+  end.
+Proof. exact outcome_cause. Qed.
+Print Assumptions C06_outcome_cause.
+
+(* OUTSIDE THE FAULT MODEL, stated precisely.  "Its response" is identified by the correlation id VALUE
+   (C06_own_response), not by the position of the frame in the byte stream.  The stronger reading "each received frame
+   completes at most one request" is false of the faithful model in one corner: after the receiver aborted (length
+   limit, or a frame shorter than an id) Twisted keeps the whole buffer and re-parses it on every later dataReceived;
+   if (a) the transport goes on delivering bytes after afkak asked it to close (a TCP transport stops reading at
+   loseConnection() and a reactor drops a connection whose dataReceived raised; simnet keeps delivering on purpose) AND
+   (b) the caller issues a new request with the SAME correlation id on that doomed connection (KafkaClient hands out
+   ids from a counter mod 2^31 and never does), the frame already consumed completes the new request as well.  Both
+   conditions are outside the property's fault model; the monitor (drv_brokerclient.py, "after an abort") accepts
+   exactly this re-delivery of frames received before the abort and nothing else.  No finding. *)
+Theorem C06_frame_instance_refuted : exists evs s outs h1 h2 f stream,
+  run init evs = (s, outs) /\ h1 <> h2 /\ In (ODef h1 (Succ f)) outs /\ In (ODef h2 (Succ f)) outs
+  /\ In OLose outs
+  /\ concat (flat_map (fun e => match e with EData c => [c] | _ => [] end) evs) = stream
+  /\ stream = encode_frame f ++ enc32 2147483648 ++ [9].
+Proof. exact frame_instance_refuted. Qed.
+Print Assumptions C06_frame_instance_refuted.
 
 (* ------------------------------------------------------------------ framing composed with the client *)
 
